@@ -191,6 +191,16 @@ func (c *Core) forward(bp BundleDescriptor) {
 	bp.RemoveConstraint(DispatchPending)
 	_ = bp.Sync()
 
+	// receive removes unsupported blocks flagged for removal only from its in-memory copy; a
+	// retry works on the bundle as loaded from the store, which still carries them.
+	for i := len(bp.MustBundle().CanonicalBlocks) - 1; i >= 0; i-- {
+		cb := &bp.MustBundle().CanonicalBlocks[i]
+		if !bpv7.GetExtensionBlockManager().IsKnown(cb.TypeCode()) && cb.BlockControlFlags.Has(bpv7.RemoveBlock) {
+			bp.MustBundle().CanonicalBlocks = append(
+				bp.MustBundle().CanonicalBlocks[:i], bp.MustBundle().CanonicalBlocks[i+1:]...)
+		}
+	}
+
 	if hcBlock, err := bp.MustBundle().ExtensionBlock(bpv7.ExtBlockTypeHopCountBlock); err == nil {
 		hc := hcBlock.Value.(*bpv7.HopCountBlock)
 		exceeded := hc.Increment()
